@@ -350,8 +350,10 @@ class Worker:
             raise
         except _Unknown:
             pass
-        except hypothesis.errors.HypothesisException:
-            pass   # e.g. Flaky once the shrink deadline has passed
+        except Exception:  # noqa: BLE001
+            # Flaky once the shrink deadline has passed, or the shrinker tripping over
+            # it; the best case found so far is already stored in ``best``
+            pass
         return best
 
     def _record_failure(self, sub: Sub, case: Any, discs: list, origin: str) -> None:
